@@ -825,6 +825,16 @@ func cmdCheck(args []string) {
 		fu = append(fu, k)
 	}
 	sort.Strings(fu)
+	// the command closures are entry points: cobra calls them, nothing under contract does, so what they require of the
+	// package-level client is not checked at any call site
+	for _, g := range gens {
+		if g.F == nil || g.F.Spec == nil || !strings.Contains(g.F.Key, "Cmd.") || !funcsUnder[g.F.Key] {
+			continue
+		}
+		for _, r := range g.F.Spec.Requires {
+			notes[fmt.Sprintf("entry precondition of %s (assumed: describes what init() in cmd/root.go loaded; init() is swept for safety only, its postcondition is not verified): %s", g.F.Key, r.Src)] = true
+		}
+	}
 	var ns []string
 	for k := range notes {
 		ns = append(ns, k)
